@@ -10,7 +10,12 @@ property keep every method and every generic protocol a property-less instance h
 Titles: the formatted class name, the `__name__` of the class parsed from an object schema carrying the title and the
 class statement of the generated module must be a valid, non-keyword, unshadowing, distinct class name
 (`class_name_problems`); the listed region C12-titles covers only an empty / keyword / shadowing name which the Lean
-model of the formatter predicts as well (`region_for_title`)."""
+model of the formatter predicts as well (`region_for_title`).
+Title sets (`check_title_set`): documents of 2-7 pairwise different objects whose titles are related - spellings the
+formatter sends onto one name, numbered look-alikes of the names the library hands out to same-named classes - and the
+history in which the handed-out names come back as titles (what `serialize_json` writes) beside further objects with
+the first titles: one class per object, usable pairwise distinct names, a generated module with one class statement per
+model that executes and binds each name to the model of that name; every library call under a watchdog."""
 import keyword
 import random
 import unicodedata
@@ -611,13 +616,243 @@ def check_shared_object(names, out, stats):
     stats["shared-object-ok"] = stats.get("shared-object-ok", 0) + 1
 
 
+# ----------------------------------------------------------------------------- sets of titles in one module
+# "distinct from every other class in the module" is a statement about *sets* of titles met in one parse, not about
+# one title: spellings the formatter sends onto one class name, titles that look like the names the library hands
+# out to tell same-named classes apart, and - as a history - the handed-out names themselves coming back as titles
+# (that is what `serialize_json` writes) beside further objects carrying the original titles.
+TITLE_BASES = ["address", "line item", "Foo", "point", "HttpServer", "v2", "area 51", "customer", "x", "order-line", "foo_bar", "é cole",
+               "item 1", "Line Item", "zq"]
+TITLE_TYPES = ["string", "integer", "boolean", "number", "null", "array"]
+
+
+class LibraryHangs(BaseException):
+    """raised by the watchdog inside a library call that does not return"""
+
+
+def _watchdog(_signum, _frame):
+    raise LibraryHangs()
+
+
+def guarded(fn, *args, seconds=10.0):
+    """Run a call into the library under a watchdog: ("ok", value) / ("raised", exception) / ("hangs", None)."""
+    import signal
+    old = signal.signal(signal.SIGALRM, _watchdog)
+    signal.setitimer(signal.ITIMER_REAL, seconds)
+    try:
+        return "ok", fn(*args)
+    except LibraryHangs:
+        return "hangs", None
+    except RecursionError as exc:
+        return "raised", exc
+    except Exception as exc:  # noqa: BLE001
+        return "raised", exc
+    finally:
+        signal.setitimer(signal.ITIMER_REAL, 0)
+        signal.signal(signal.SIGALRM, old)
+
+
+def title_spelling(rng, base):
+    """another way of writing the same title: separators exchanged, case of a word changed, blanks around it"""
+    how = rng.choice(["same", "same", "same", "separator", "case", "capital", "blank", "glued"])
+    if how == "separator":
+        sep = rng.choice([" ", "-", "_", ".", "  ", "/"])
+        return "".join(sep if c in " -_./" else c for c in base)
+    if how == "case":
+        return rng.choice([base.lower(), base.upper(), base.title()])
+    if how == "capital":
+        return base[:1].swapcase() + base[1:]
+    if how == "blank":
+        return rng.choice([" ", "", "-"]) + base + rng.choice([" ", "_", "-"])
+    if how == "glued":
+        return "".join(w[:1].upper() + w[1:] for w in base.replace("-", " ").replace("_", " ").split(" "))
+    return base
+
+
+def title_numbered(rng, base, upto):
+    """a title that looks like the name of the n-th class of that title: the title, a separator, a small number"""
+    n = rng.choice(list(range(0, upto + 2)) + list(range(1, upto + 1)) * 2)
+    return base + rng.choice(["_", "_", "_", " ", "-", "", ".", "__", " _", "_0"]) + str(n)
+
+
+def titled_object(title, marker, rng):
+    """an object schema unlike every other one of the document: its own marker property (`p<marker>`)"""
+    return {"type": "object", "title": title, "properties": {"p%d" % marker: {"type": rng.choice(TITLE_TYPES)}}}
+
+
+def place_object(doc, key, obj, rng=None, inside=None):
+    """put one more titled object into the document: under the root (an object's property / a further tuple item / a
+    further anyOf member) or as a property of an object already there"""
+    if inside is not None:
+        inside["properties"][key] = obj
+    elif "properties" in doc:
+        doc["properties"][key] = obj
+    elif "items" in doc:
+        doc["items"].append(obj)
+    else:
+        doc["anyOf"].append(obj)
+
+
+def titled_objects_of(doc):
+    """every titled object of a document of this family, by its marker"""
+    found = {}
+
+    def walk(x):
+        if isinstance(x, dict):
+            if "title" in x and isinstance(x.get("properties"), dict):
+                for k in x["properties"]:
+                    if k[:1] == "p" and k[1:].isdigit():
+                        found[int(k[1:])] = x
+            for v in x.values():
+                walk(v)
+        elif isinstance(x, list):
+            for v in x:
+                walk(v)
+    walk(doc)
+    return found
+
+
+def title_set_document(rng, stats):
+    """One document with 2-7 pairwise different titled objects whose titles are related: spellings of one title,
+    numbered look-alikes, now and then an unrelated title; laid out under an object / a tuple / an anyOf, nested or
+    side by side, in random order of meeting.  Returns (document, titles that may be fed back later)."""
+    base = rng.choice(TITLE_BASES)
+    m = rng.randint(2, 6)
+    titles = []
+    for _ in range(m):
+        kind = rng.choices(["spelling", "numbered", "other"], [55, 35, 10])[0]
+        stats["title-set: " + kind + " titles"] = stats.get("title-set: " + kind + " titles", 0) + 1
+        if kind == "spelling":
+            titles.append(title_spelling(rng, base))
+        elif kind == "numbered":
+            titles.append(title_numbered(rng, title_spelling(rng, base), m))
+        else:
+            titles.append(title_spelling(rng, rng.choice(TITLE_BASES)))
+    layout = rng.choice(["properties", "properties", "items", "anyOf"])
+    stats["title-set: layout " + layout] = stats.get("title-set: layout " + layout, 0) + 1
+    if layout == "properties":
+        root_title = rng.choice([title_spelling(rng, base), title_numbered(rng, base, m), "zq root", "zq root"])
+        doc = titled_object(root_title, m, rng)
+    elif layout == "items":
+        doc = {"type": "array", "items": []}
+    else:
+        doc = {"anyOf": []}
+    placed = []
+    for i, t in enumerate(titles):
+        o = titled_object(t, i, rng)
+        place_object(doc, "k%d" % i, o, inside=rng.choice(placed) if placed and rng.random() < 0.3 else None)
+        placed.append(o)
+    return doc, titles + [base]
+
+
+def title_doc_verdict(drv, doc, out, stats):
+    """The oracle for one document of pairwise different titled objects: it parses (and returns); there is one class
+    per object; every class name is a usable class name; the names are pairwise distinct; the generated module has
+    exactly one class statement per name, executes, and the class it binds to a name describes the model of that
+    name.  Returns (what is wrong | None, class name by marker, agrees with the Lean model of the parse)."""
+    import re as _re
+    from statham.schema.elements.meta import ObjectMeta
+    from statham.serializers.orderer import get_object_classes
+    from statham.serializers.python import serialize_python
+    objects = titled_objects_of(doc)
+    agree = True
+    how, el = guarded(parse_element, core.copy.deepcopy(doc))
+    if how == "hangs":
+        return "parsing the document does not return (watchdog)", {}, agree
+    if how == "raised":
+        return f"the document does not parse: {type(el).__name__}: {el}", {}, agree
+    if drv is not None:
+        try:
+            rep = drv.ask({"op": "parse", "schema": core.enc_val(doc), "tables": core.schema_tables(doc, [])})
+        except (TypeError, ValueError):
+            rep = {"error": "not encodable"}
+        if "error" not in rep and rep.get("parse") == "ok":
+            out.traces_validated += 1
+            if core.dump_elem(el) != rep["elem"]:
+                agree = False
+                out.disagreements.append({"what": "parsed tree (class names of a title set)", "impl": core.dump_elem(el), "model": rep["elem"], "title_doc": doc})
+    how, listed = guarded(lambda: list(get_object_classes(el)))
+    if how != "ok":
+        return "collecting the classes of the parsed document " + ("does not return (watchdog)" if how == "hangs" else f"raised {type(listed).__name__}: {listed}"), {}, agree
+    classes = []
+    for c in listed:
+        if not any(c is d for d in classes):
+            classes.append(c)
+    names = [c.__name__ for c in classes]
+    by_marker = {}
+    for c in classes:
+        for k in c.properties:
+            src = c.properties[k].source or k
+            if src[:1] == "p" and src[1:].isdigit():
+                by_marker.setdefault(int(src[1:]), []).append(c)
+    if len(classes) != len(objects) or sorted(by_marker) != sorted(objects) or any(len(v) != 1 for v in by_marker.values()):
+        return f"{len(objects)} different titled objects (titles {[objects[i]['title'] for i in sorted(objects)]}) became {len(classes)} classes {names}", {}, agree
+    name_of = {i: v[0].__name__ for i, v in by_marker.items()}
+    shown = ", ".join(f"{objects[i]['title']!r} -> {name_of[i]}" for i in sorted(objects))
+    for n in names:
+        problems = class_name_problems(n)
+        if problems:
+            return f"class name {n!r} ({shown}): {problems[0]}", name_of, agree
+    if len(set(names)) != len(names):
+        dup = sorted(n for n in set(names) if names.count(n) > 1)
+        return f"different classes of one module share the class name(s) {dup}: {shown}", name_of, agree
+    how, text = guarded(serialize_python, el)
+    if how != "ok":
+        return f"generating the module ({shown}) " + ("does not return (watchdog)" if how == "hangs" else f"raised {type(text).__name__}: {text}"), name_of, agree
+    declared = _re.findall(r"^class (\w+)\(", text, flags=_re.MULTILINE)
+    if sorted(declared) != sorted(names):
+        return f"the generated module declares classes {declared} for the models {names} ({shown})", name_of, agree
+    ns = {}
+    how, err = guarded(lambda: exec(compile(text, "<title-set>", "exec"), ns))  # noqa: S102 - the generated text is the thing under test
+    if how != "ok":
+        return f"the module generated for {shown} " + ("does not finish executing (watchdog)" if how == "hangs" else f"is unusable: {type(err).__name__}: {err}"), name_of, agree
+    for c in classes:
+        g = ns.get(c.__name__)
+        if not isinstance(g, ObjectMeta) or list(g.properties) != list(c.properties):
+            return f"the generated class {c.__name__} does not describe the model of that name ({shown})", name_of, agree
+    return None, name_of, agree
+
+
+def check_title_set(drv, doc, fed_back, out, stats):
+    """A set of related titles in one module, then the history 'the names handed out come back as titles': every
+    object of the document is re-titled with the class name it was given (what `serialize_json` writes), further
+    different objects carrying titles of the first round are added, and the result is parsed and generated again."""
+    case = {"title_doc": doc, "fed_back": list(fed_back)}
+    out.note_case(case, True)
+    wrong, name_of, agree = title_doc_verdict(drv, doc, out, stats)
+    if wrong:
+        stats["title-set: failed as written"] = stats.get("title-set: failed as written", 0) + 1
+        out.failures.append({"case": case, "what": wrong, "finding": None})
+        return
+    stats["title-set: ok as written"] = stats.get("title-set: ok as written", 0) + 1
+    names = list(name_of.values())
+    if len(names) - len({n.split("_")[0] for n in names}) > 0:
+        stats["title-set: documents in which the library numbered same-named classes"] = stats.get("title-set: documents in which the library numbered same-named classes", 0) + 1
+    if not fed_back:
+        return
+    again = core.copy.deepcopy(doc)
+    objects = titled_objects_of(again)
+    for i, o in objects.items():
+        o["title"] = name_of[i]
+    top = max(objects) + 1
+    for j, t in enumerate(fed_back):
+        place_object(again, "e%d" % j, {"type": "object", "title": t, "properties": {"p%d" % (top + j): {"type": "string"}, "extra": {"type": "integer"}}})
+    wrong, _, _ = title_doc_verdict(drv, again, out, stats)
+    if wrong:
+        stats["title-set: failed after the names came back as titles"] = stats.get("title-set: failed after the names came back as titles", 0) + 1
+        out.failures.append({"case": case, "what": f"after re-titling every object with the class name it was given ({sorted(name_of.values())}) and adding "
+                             f"objects titled {list(fed_back)}: {wrong}", "finding": None})
+        return
+    stats["title-set: ok after the names came back as titles"] = stats.get("title-set: ok after the names came back as titles", 0) + 1
+
+
 def run(ctx, scale=1.0):
     rng = random.Random(ctx["seed"] + 12)
     out = Outcome()
     out.rule = ("single characters in three contexts (alone, between letters, after `_`): every code point below U+3000 plus a random "
                 "sample (quick) or every Unicode scalar value (thorough); strings of 2-6 class representatives; keyword / reserved / "
                 "dunder words; sibling sets of 2-4 names; titles (random over a small alphabet, and built word by word: every word shape - digit-led, capitals, camel case, non-ASCII - in first and later position with every separator; every swept string also as a title), each formatted, parsed as an object title and generated; every attribute name of Object / its metaclass / an instance in the JSON "
-                "spellings mapping onto it (instances keep all instance facilities); non-trivial = longer than one character; distinct by SHA-256")
+                "spellings mapping onto it (instances keep all instance facilities); sets of 2-7 related titles (spellings of one title, numbered look-alikes) on pairwise different objects of one document, then re-titled with the class names handed out plus further objects under the first titles - parsed and generated; non-trivial = longer than one character; distinct by SHA-256")
     stats = {}
     drv = core.Driver()
     try:
@@ -688,6 +923,13 @@ def run(ctx, scale=1.0):
         titles = [t for t in titles if not core.has_surrogate(t)]
         for t, m in zip(titles, model_titles(drv, titles)):
             check_title(t, out, stats, drv, model_name=m)
+        # sets of related titles in one module, and the handed-out names coming back as titles (drawn last: the
+        # stream of the families above is unchanged)
+        for _ in range(int(150 * scale)):
+            doc, pool = title_set_document(rng, stats)
+            fed_back = [rng.choice(pool) for _ in range(rng.choice([0, 1, 1, 2]))]
+            if len([f for f in out.failures if f.get("finding") is None and "title_doc" in f.get("case", {})]) < 10:
+                check_title_set(drv, doc, fed_back, out, stats)
     finally:
         drv.close()
     out.stats = stats
@@ -709,6 +951,12 @@ def rerun(w):
         drv = core.Driver()
         try:
             check_class_names(drv, w["schema"], out, stats)
+        finally:
+            drv.close()
+    elif "title_doc" in w:
+        drv = core.Driver()
+        try:
+            check_title_set(drv, w["title_doc"], w.get("fed_back", []), out, stats)
         finally:
             drv.close()
     elif "shared_object" in w:
